@@ -231,7 +231,7 @@ def _cmp_parts(c):
             return None
         f = ops[op]
         return v, (lambda x, f=f, k=k, neg=neg: f(x, k) != neg)
-    if c.const is None and c.k in ('ref', 'cast', 'mem', 'idx', 'un'):
+    if c.const is None and c.k in ('ref', 'cast', 'mem', 'idx', 'un', 'call'):
         return c, (lambda x, neg=neg: bool(x) != neg)
     return None
 
@@ -283,3 +283,44 @@ def deep_calls(prog, fn, names, depth=3):
         for c in f.calls(names):
             out.append((f, c))
     return out
+
+
+def branch_zero_test(cond, truth, var_pred):
+    """For a branch on a single variable (matched by var_pred on the compared expression):
+    returns 'zero' if taking this outcome implies var == 0, 'nonzero' if it implies var != 0, else None."""
+    p = _cmp_parts(cond)
+    if p is None or truth not in (True, False):
+        return None
+    v, f = p
+    if not var_pred(v):
+        return None
+    z = f(0) == truth
+    nz = [f(k) == truth for k in (1, 2, 5, 100, -1)]
+    if z and not any(nz):
+        return 'zero'
+    if not z and all(nz[:4]):
+        return 'nonzero'
+    return None
+
+
+def only_reached_through(prog, unit, target, allowed_roots):
+    """every call path (inside `unit`) to `target` starts in one of allowed_roots"""
+    callers = {}
+    for fn in prog.functions():
+        if fn.unit != unit:
+            continue
+        for c in fn.calls():
+            if c.callee:
+                callers.setdefault(c.callee, set()).add(fn.name)
+    seen = set()
+
+    def ok(f, stack=()):
+        if f in allowed_roots:
+            return True
+        if f in stack:
+            return True
+        cs = callers.get(f, set())
+        if not cs:
+            return False
+        return all(ok(g, stack + (f,)) for g in cs)
+    return ok(target), sorted(callers.get(target, set()))
